@@ -5,6 +5,9 @@ HERE = os.path.dirname(os.path.dirname(os.path.abspath(__file__)))
 
 # id -> (technique, level text, level note, design ref)
 CHECKS = {
+ "C18": ("generated programs and write histories against a stream oracle, with the real fd 1 captured: enumerated store-form snippets + proptest programs/histories with shrinking, three execution modes",
+         "The worker's standard output is redirected to an in-memory file; hand-assembled snippets for every store form (incl. LD (nn),SP and PUSH onto 0xFF03) x bit-7 combinations x data values, generated programs with extra serial fragments and transmitting interrupt handlers, the cache-pressure program, and direct write histories are run instruction-stepped, block-stepped (interpreter) and block-stepped (jit); the captured bytes must equal exactly the SB value at each SC write with bit 7 set, in the order of the machine's bus writes, and the modes must agree.",
+         "the expected stream is computed from the machine's own ordered bus-write trace (hook); loader messages are outside (machines are built with Core::from_rom_file)", "DESIGN.md §5 C18"),
  "C09": ("model-based lock-step testing of delivered clocks against a reference CPU/interrupt model over proptest-generated programs in three stepping modes, with shrinking",
          "Generated structured programs run instruction-stepped (interpreter build), block-stepped (interpreter build) and block-stepped (jit build) in lock-step with the reference machine; after every step the clocks delivered at the MemoryAreas boundary must equal 4 x the machine cycles the reference CPU consumed (+5 carried from a dispatch, exactly 4 when suspended, never less than 4), every device must be where the twin that received the reference's clocks is, the interrupt check must follow the catch-up, and last_block_cycle_length must match; run_frame() from the end point must return within two frames plus one block.",
          "trusted: models::sm83 cycle counts, models::irq; twin bus/devices from the repository; runs end at undefined opcodes / the HALT quirk (counted); non-returning run_frame is reported via SIGALRM", "DESIGN.md §5 C09"),
